@@ -461,6 +461,32 @@ func (f *Frame) eval1(v ssa.Value) AV {
 			case avCell:
 				return a.fr.Eval(a.st.Val)
 			}
+			// a field of a struct this function has just allocated and only
+			// fills in field by field (`cc := &T{F: v}; if cc.F == "" {...}`):
+			// the one store to that field that lies in a live block
+			if fa, ok := x.X.(*ssa.FieldAddr); ok {
+				if al, ok := fa.X.(*ssa.Alloc); ok && onlyFieldwise(al) {
+					var reaching *ssa.Store
+					n := 0
+					for _, ref := range *al.Referrers() {
+						fa2, ok := ref.(*ssa.FieldAddr)
+						if !ok || fa2.Field != fa.Field || fa2.Referrers() == nil {
+							continue
+						}
+						for _, r2 := range *fa2.Referrers() {
+							st, ok := r2.(*ssa.Store)
+							if !ok || st.Addr != ssa.Value(fa2) || !f.liveBlock[st.Block().Index] {
+								continue
+							}
+							n++
+							reaching = st
+						}
+					}
+					if n == 1 && (reaching.Block() == x.Block() && instrIndexOf(reaching) < instrIndexOf(x) || reaching.Block() != x.Block() && reaching.Block().Dominates(x.Block())) {
+						return f.Eval(reaching.Val)
+					}
+				}
+			}
 			// a private local cell (named result, address-taken local that
 			// never leaves the function): the value stored earlier in the
 			// same block (`x, err = f(); if err != nil`)
@@ -1218,4 +1244,24 @@ func readOnlyStructCopy(al *ssa.Alloc) ssa.Value {
 		}
 	}
 	return src
+}
+
+// onlyFieldwise: the allocation is used only through field addresses (stores
+// and loads of single fields), as a returned value, or as the receiver /
+// argument of nothing at all - nobody else can have written its fields.
+func onlyFieldwise(al *ssa.Alloc) bool {
+	if al.Referrers() == nil {
+		return false
+	}
+	if _, isStruct := derefType(al.Type()).Underlying().(*types.Struct); !isStruct {
+		return false
+	}
+	for _, ref := range *al.Referrers() {
+		switch ref.(type) {
+		case *ssa.FieldAddr, *ssa.Return, *ssa.DebugRef:
+		default:
+			return false
+		}
+	}
+	return true
 }
